@@ -19,7 +19,7 @@ CHECKS = {
                 "completeness on antichains; exactness of the abs/product/or/xor gadgets and of the exclusion cut. The model is tied to the "
                 "code by comparing the model the real CBC wrapper holds with Lean's Shape.toIlp, by validating every real solutions() trace "
                 "with the executable validRun predicate on an exhaustively enumerated point set, and by regenerating the precision literals.",
-        "text_more": "Models with general integer variables are covered: a yielded assignment names binaries only (points_act_sublist). ",
+        "text_more": "stage_reports_optimum: over a model whose objective is nowhere negative a normally ended run reports at least its optimum; the three stage models meet the hypothesis (cn_objective_nonneg, major_objective_nonneg, minor_objective_nonneg in the stages' own property files). Models with general integer variables are covered: a yielded assignment names binaries only (points_act_sublist). ",
         "design_ref": "DESIGN.md section 3.1, 3.3, 4 (C05)",
         "note": "Gurobi wrapper not modelled (not installed). The premise 'each solve returns a global optimum' is tested, not proved.",
         "technique": "Lean 4 proof (induction over the Run relation; linear arithmetic) + model-vs-CBC structural and trace correspondence",
@@ -50,7 +50,7 @@ CHECKS = {
                 "the estimate_cn decision table (user structure verbatim, unknown names rejected, two/one default copies). Ties on every run: captured "
                 "CBC model == CNInst.build, real return == foldCN(real yields), _filter_configs == filterConfigs, estimate_cn decisions == cnDecision; "
                 "plus an exhaustive spec-level oracle over all admissible internal assignments.",
-        "text_more": "Through genotype(): the structure is estimated with a copy-number capable profile also after an exome run of the same gene in the same process. ",
+        "text_more": "The objective is non-negative at every feasible point for non-negative penalty parameters (cn_objective_nonneg), the hypothesis under which C05 stage_reports_optimum / the gap theorems apply to this stage. Through genotype(): the structure is estimated with a copy-number capable profile also after an exome run of the same gene in the same process. ",
         "design_ref": "DESIGN.md section 10.2-10.3 (as built), section 4 (C03) (plan)",
         "note": "Global optimality and superset-completeness are C05's Run theorems applied to this model plus the exhaustive oracle; the exome/VCF "
                 "profile dispatch of genotype.py is covered by C19/C16 ties.",
@@ -284,7 +284,7 @@ CHECKS = {
                 "evidence estimate_minor hands to solve_minor_model (intercepted) vs the model on tables mixing qualifying and sub-threshold "
                 "observations under varied, asymmetric thresholds. Oracle: metamorphic pairs through the real estimate_major/estimate_minor give "
                 "identical solutions and scores; every called core/novel/carried variant meets the count and fraction thresholds on qualifying reads.",
-        "text_more": "Refinement with novel=True, variants below min_coverage at shallow sites and variants between the filter thresholds of low-copy sites are part of the metamorphic runs. ",
+        "text_more": "Whole table (Props/C15Table): adding observations that fail the base- or mapping-quality threshold to any operation - catalogued at that position or not - of a position of the table leaves Coverage.filtered(quality_filter) IDENTICAL (same positions, operations, observation lists and indel table: qfiltered_addLow, for every table with pairwise different positions), hence every stage model built from it (major_model_ignores_low). Refinement with novel=True, variants below min_coverage at shallow sites and variants between the filter thresholds of low-copy sites are part of the metamorphic runs. ",
         "design_ref": "DESIGN.md section 10.2-10.3 (as built), section 4 (C15) (plan)",
         "note": "Invariance of the stages under low-quality reads is proved for the filter and carried to the stages by the metamorphic "
                 "correspondence (stages read evidence only through the filtered coverage - checked by the C02/C04 structural ties); the phase "
